@@ -234,12 +234,15 @@ fn gen_bed(w: &World) -> (Vec<BedModel>, usize) {
                 1 if k >= 2 => m.aux[1] = m.start.to_string(),
                 2 if k >= 1 => m.aux[0] = m.end.to_string(),
                 3 => {
+                    let thick = w.draw(4);
                     let bed12 = [
                         "uc001aaa.3".to_string(),
                         (*w.pick(&["0", "1000", "960", "500", "1001", "-1", "65536", "0.5"])).to_string(),
                         (*w.pick(&["+", "-", "."])).to_string(),
-                        m.start.to_string(),
-                        m.end.to_string(),
+                        // thickStart / thickEnd: the feature's own ends, "no thick part" written as
+                        // 0 0 or as start start, or just the start twice
+                        if thick == 1 || thick == 2 { "0".to_string() } else { m.start.to_string() },
+                        if thick == 1 { "0".to_string() } else if thick == 3 { m.start.to_string() } else { m.end.to_string() },
                         (*w.pick(&["255,0,0", "0", "0,0,0", "#FF8000", "#000000", "#ffffff", "255,0,0,", "255 0 0"])).to_string(),
                         (*w.pick(&["2", "1", "3"])).to_string(),
                         (*w.pick(&["567,488,", "10,20", "1"])).to_string(),
